@@ -101,7 +101,7 @@ class Spec(PropSpec):
         n = 400 if ctx.tier == "quick" else 3000
         if ctx.escalate:
             n *= 2
-        return [F.gen_latency_script(ctx.rng) for _ in range(n)]
+        return F.tcp_noise_latency_scripts() + [F.gen_latency_script(ctx.rng) for _ in range(n)]
 
     def to_model(self, case, obs):
         return F.to_model(case, obs)
@@ -112,6 +112,8 @@ class Spec(PropSpec):
     def oracle(self, case, obs):
         if obs.get("panic"):
             return []
+        if case.get("flavour") == "tcp-noise-latency":
+            return F.tcp_noise_latency_oracle(case, obs)
         return c14_oracle(case, obs)
 
     def nontrivial(self, case, obs):
